@@ -111,9 +111,9 @@ Judge(desc, e) ==
       [] req.act = "do" ->
            IF e.cls \in NoSuch THEN "described.unreachable"
            ELSE IF d.arg = NoDt
-                THEN (IF req.payload = Null THEN (IF e.cls \in NeverForValid THEN "datainfo.accepts" ELSE "")
+                THEN (IF IsNull(req.payload) THEN (IF e.cls \in NeverForValid THEN "datainfo.accepts" ELSE "")
                       ELSE IF e.cls = "ok" THEN "datainfo.rejects" ELSE "")
-           ELSE IF req.payload = Null THEN (IF e.cls = "ok" THEN "datainfo.rejects" ELSE "")
+           ELSE IF IsNull(req.payload) THEN (IF e.cls = "ok" THEN "datainfo.rejects" ELSE "")
            ELSE JudgeValue(d.arg, e, req.payload, Null)
 
 (* updates received while a request was served: only described parameters, importable values *)
@@ -191,7 +191,7 @@ EventsOf(c, o) ==
       prev == IF isp /\ acc.const = Null THEN c[req.mod][CHOOSE a \in DOMAIN shape[req.mod] : shape[req.mod][a].wire = DName(req)] ELSE Null
   IN {[req |-> req, prev |-> prev, cls |-> k,
        value |-> IF o.reply.ok THEN o.reply.v ELSE Null,
-       real_ok |-> IF known /\ dt # NoDt /\ ~(req.act = "do" /\ req.payload = Null) THEN Validate(dt, req.payload, prev).ok ELSE TRUE,
+       real_ok |-> IF known /\ dt # NoDt /\ ~(req.act = "do" /\ IsNull(req.payload)) THEN Validate(dt, req.payload, prev).ok ELSE TRUE,
        imp |-> TRUE,
        strict |-> isp /\ acc.hooks = <<>> /\ acc.lim.kind = "none" /\ acc.drv # "raise" /\ acc.dt.t # "limits",
        upd |-> IF o.hassnap
